@@ -2960,6 +2960,9 @@ def r_attach(E):
     # replace primitive relies on the second, seemingly redundant, attach to re-register a dict entry whose twin with
     # the same id was just deregistered)
     rel, fn = pm.find_function(EB, "ExplainableObject.set_modeling_obj_container")
+    # (split into steps — check, unregister, register — it reads as the method it was)
+    from ..astutil import inlined_view as _iv_at
+    fn = _iv_at(fn, pm.helper_finder("ExplainableObject"), rounds=2, max_body=20)
     res.instances += 1
     from ..paths import enumerate_paths, path_formula, consistent, parse
     ps = [a.arg for a in fn.args.args]
